@@ -141,6 +141,7 @@ pub struct Sess {
     birth_ts: BTreeMap<String, u64>,
     stale_ts: BTreeMap<String, u64>,
     last_applied_id: BTreeMap<String, Option<i64>>, // since the last accepted NBIRTH
+    applied_ids: BTreeSet<(String, i64)>,
     reseq_on: bool,
     pub ordered_ids: bool, // the generator numbers a session's messages in publish order
     host_online: bool,
@@ -213,6 +214,7 @@ impl Sess {
             birth_ts: BTreeMap::new(),
             stale_ts: BTreeMap::new(),
             last_applied_id: BTreeMap::new(),
+            applied_ids: BTreeSet::new(),
             reseq_on: num(&w, "rq") == 1,
             ordered_ids: false,
             host_online: true,
@@ -372,13 +374,15 @@ impl Sess {
                 if id >= 0 {
                     if let Some(Some(p)) = self.last_applied_id.get(n) {
                         if id <= *p {
+                            let again = self.applied_ids.contains(&(n.clone(), id));
                             out.fail(
                                 "C05:applied-in-order-once",
-                                if id == *p { "applied-twice" } else { "inversion" },
+                                if again { "late-duplicate-reapplied" } else { "inversion" },
                                 format!("{}: message {} applied after message {}", op, id, p),
                             );
                         }
                     }
+                    self.applied_ids.insert((n.clone(), id));
                     self.last_applied_id.insert(n.clone(), Some(id));
                 }
             }
@@ -985,12 +989,84 @@ fn trigger_scenarios(out: &mut Out) {
     c.out.count("trigger-scenario");
 }
 
-pub const RULE: &str = "host histories through the real Application (paused tokio time, mock clock, recording stores): (a) fault-free multi-node multi-device streams with several sessions/rebirths each, sequence wrap included, every message delivered once within a bounded displacement (oracles: no NCMD, promptness, order); (b) the same with duplicates, losses, NDEATHs with matching/non-matching bdSeq, host offline/online, late old-session deliveries, unknown nodes/devices, store rejections, replayed NBIRTHs, invalid payloads, virtual time advanced to just before/after the reorder timeout, random rebirth switches, cooldown 0 / finite / longer than the run, timeout present/absent, resequencing on/off, node-queue sizes 1/2/1024; (c) every event sequence of length <= L over a 15-symbol single-node alphabet, for two configurations; (d) scripted trigger scenarios. Non-trivial = at least two deliveries; distinct = distinct request-line sequences (hashed).";
+/// K1 probes: the node's clock ahead of / behind the host's. With the node ahead, an NDEATH or
+/// a host-issued rebirth must still mark the stores stale (C06); the current code compares the
+/// host's arrival time with the node's birth timestamp and ignores the death.
+fn skew_scenarios(out: &mut Out, rng: &mut Rng) {
+    let cfg = cfg_default("100", 0, 1);
+    for skew in [10_000u64, 1, 3_600_000] {
+        for variant in 0..3 {
+            let t0 = 1_000_000 + rng.below(100);
+            let mut c = Case::begin(out, &cfg, t0);
+            c.out.set_desc("ordered".into());
+            c.sess.ordered_ids = true;
+            let bts = t0 + skew;
+            c.op(&format!("ev n1 nbirth ts={} bd=3 id=1 ans=ok", bts));
+            c.op(&format!("ev n1 dbirth dev=1 seq=1 ts={} id=2 ans=ok", bts + 1));
+            match variant {
+                0 => {
+                    c.op("ev n1 ndeath bd=3");
+                }
+                1 => {
+                    c.op("offline");
+                    c.op("online");
+                }
+                _ => {
+                    // a duplicate forces a rebirth request
+                    c.op(&format!("ev n1 ndata seq=5 ts={} id=6 ans=ok", bts + 5));
+                    c.op(&format!("ev n1 ndata seq=5 ts={} id=6 ans=ok", bts + 5));
+                }
+            }
+            c.op(&format!("ev n1 ndata seq=2 ts={} id=3 ans=ok", bts + 2));
+            c.out.nontrivial();
+            c.out.count("skew:node-clock-ahead");
+        }
+    }
+    // node clock behind the host's: data after a host-issued rebirth / death is dropped as old
+    for lag in [10_000u64, 500] {
+        let t0 = 2_000_000;
+        let mut c = Case::begin(out, &cfg, t0);
+        let bts = t0 - lag;
+        c.op(&format!("ev n1 nbirth ts={} bd=3 id=1 ans=ok", bts));
+        c.op(&format!("ev n1 ndata seq=1 ts={} id=2 ans=ok", bts + 1));
+        c.op("ev n1 ndeath bd=3");
+        c.op(&format!("ev n1 nbirth ts={} bd=4 id=3 ans=ok", bts + 5));
+        c.op(&format!("ev n1 ndata seq=1 ts={} id=4 ans=ok", bts + 6));
+        c.out.nontrivial();
+        c.out.count("skew:node-clock-behind");
+    }
+}
+
+/// A late duplicate of an already applied message followed by more than 250 further messages
+/// (no reorder timeout configured, or traffic faster than it): the duplicate is filed as a
+/// far-ahead message and must never be applied a second time (C05 "at most once each").
+fn late_duplicate_scenario(out: &mut Out, to: &str) {
+    let cfg = cfg_default(to, 0, 1);
+    let t0 = 1_000_000;
+    let mut c = Case::begin(out, &cfg, t0);
+    c.out.set_desc("ordered".into());
+    c.sess.ordered_ids = true;
+    c.op(&format!("ev n1 nbirth ts={} bd=3 id=1 ans=ok", t0));
+    c.op(&format!("ev n1 ndata seq=1 ts={} id=2 ans=ok", t0 + 1));
+    c.op(&format!("ev n1 ndata seq=2 ts={} id=3 ans=ok", t0 + 2));
+    // the duplicate of seq 1
+    c.op(&format!("ev n1 ndata seq=1 ts={} id=2 ans=ok", t0 + 1));
+    for k in 3..=300u64 {
+        c.op(&format!("ev n1 ndata seq={} ts={} id={} ans=ok", k % 256, t0 + k, k + 1));
+    }
+    c.out.nontrivial();
+    c.out.count("late-duplicate");
+}
+
+pub const RULE: &str = "host histories through the real Application (paused tokio time, mock clock, recording stores): (a) fault-free multi-node multi-device streams with several sessions/rebirths each, sequence wrap included, every message delivered once within a bounded displacement (oracles: no NCMD, promptness, order); (b) the same with duplicates, losses, NDEATHs with matching/non-matching bdSeq, host offline/online, late old-session deliveries, unknown nodes/devices, store rejections, replayed NBIRTHs, invalid payloads, virtual time advanced to just before/after the reorder timeout, random rebirth switches, cooldown 0 / finite / longer than the run, timeout present/absent, resequencing on/off, node-queue sizes 1/2/1024; (c) every event sequence of length <= L over a 15-symbol single-node alphabet, for two configurations; (d) scripted trigger scenarios, node-clock-ahead/behind probes, a late duplicate followed by 300 messages. Non-trivial = at least two deliveries; distinct = distinct request-line sequences (hashed).";
 
 pub fn run(args: &Args, out: &mut Out) -> &'static str {
     let mut rng = Rng::new(args.seed);
     let th = args.thorough();
     trigger_scenarios(out);
+    skew_scenarios(out, &mut rng);
+    late_duplicate_scenario(out, "-");
+    late_duplicate_scenario(out, "100");
     // (c) exhaustive soups
     let l = if th { 4 } else { 3 };
     for cfg in [cfg_default("100", 0, 1), "ip=1 bd=1 un=1 ud=1 um=1 rf=1 rs=1 to=- cd=1000000000 rq=1 q=1024".to_string()] {
